@@ -2190,17 +2190,6 @@ def correspond(ctx):
         extra_n.append(_float_case(rng, (True, True, True), cell=(_extreme_cell(rng, it % 3, it % 2 == 0), 'extreme')))
     norm_cases += extra_n
     _corr_norm(ctx, norm_cases)
-    # counts and thresholds: the model on systems of 2^k + 1 atoms too (the Lean functions map over the list of atoms: any
-    # number); on the grid, so flags, positions and boxes are compared exactly.  Larger systems: search only.
-    big_w, big_n = [], []
-    for it, n in enumerate(ctx.n([1025, 4097], [1023, 1025, 2049, 4097, 8193, 16385])):
-        for pbc, dest in ((rng.choice(PBCS), big_w), ((True, True, True), big_n)):
-            case = _big_case(_big_spec(rng, n, 'grid', pbc, BIG_CELLS[(it + 1) % 5]))
-            case['pos'] = case['pos'].tolist()          # (a replay file of this size is still readable: < 1 MB)
-            del case['big']
-            dest.append(case)
-    _corr_wrap(ctx, big_w)
-    _corr_norm(ctx, big_n)
     # histories on one object: the hidden state (cached reciprocal vectors) must never show
     hists = [_flag_forms(_gen_hist(rng, 'grid' if it % 3 == 0 else 'float'), it) for it in range(ctx.n(150, 2500))]
     # the periodicity setting edited in place between wraps
@@ -2212,6 +2201,17 @@ def correspond(ctx):
     hists += [{'case': dict(c), 'ops': [{'op': 'norm', 'ret': RETS_N_ALL[i % 10]}]}
               for i, c in enumerate(norm_cases) if c.get('kind') != 'singular']
     _corr_hist(ctx, hists)
+    # counts and thresholds: the model on systems of 2^k + 1 atoms too (the Lean functions map over the list of atoms: any
+    # number); on the grid, so flags, positions and boxes are compared exactly.  Larger systems: search only.
+    big_w, big_n = [], []
+    for it, n in enumerate(ctx.n([1025, 4097], [1023, 1025, 2049, 4097, 8193, 16385])):
+        for pbc, dest in ((rng.choice(PBCS), big_w), ((True, True, True), big_n)):
+            case = _big_case(_big_spec(rng, n, 'grid', pbc, BIG_CELLS[(it + 1) % 5]))
+            case['pos'] = case['pos'].tolist()          # (a replay file of this size is still readable: < 1 MB)
+            del case['big']
+            dest.append(case)
+    _corr_wrap(ctx, big_w)
+    _corr_norm(ctx, big_n)
 
 
 def _inside_nonperiodic(rng, case):
